@@ -273,8 +273,15 @@ class Ctx:
             with open(path, 'rb') as f:
                 f.seek(0, 2); n = f.tell(); f.seek(max(0, n - 4096))
                 tail = f.read().decode(errors='replace')
-            hb = [l for l in tail.splitlines() if l.startswith('VFHB')]
-            return tuple(hb[-4:]) if hb else None
+            # per-emitter last value: "VFHB <value>" (kit) or "VFHB <rank> <fields...>" (multi-rank harnesses);
+            # the ORDER in which ranks print must not matter
+            last = {}
+            for l in tail.splitlines():
+                if not l.startswith('VFHB'): continue
+                w = l.split()[1:]
+                if len(w) >= 2: last[w[0]] = tuple(w[1:])
+                else: last[''] = tuple(w)
+            return tuple(sorted(last.items())) if last else None
         except OSError:
             return None
 
